@@ -121,6 +121,11 @@ func MakeConfig(seed uint64, profile, tier string) SwarmConfig {
 		emph("commit", "lp", "lender", "govchaos")
 	case "C13":
 		emph("trader", "lp", "commit", "perp", "incentive")
+		if r.IntN(2) == 0 {
+			emph("govchaos") // Eden toggles, multipliers, reward portions while rewards accrue
+			c.EdenCycle = true
+			c.Genesis.EdenRewards = true
+		}
 	case "C15":
 		emph("donor", "commit", "trader", "govchaos")
 	case "C16":
